@@ -21,6 +21,16 @@ def make_cases(tier, seed):
             kw = dict(weights=dict(rotate=14, dblock=8))
         elif i % 4 == 2:
             kw = dict(nops=r.choice([0, 1, 2, 3, 5]))   # destruction with/without buffered data, tiny histories
+        if i % 3 == 1:
+            # preambles with every optional member (prefix lengths, flags, method strings, collection parameters, odd lists)
+            pre = gen.gen_preamble(r, rich=True, nbps=r.choice([1, 2, 3]))
+            pre['major'], pre['minor'] = 1, 0
+            for bp in pre['bps']:
+                if bp['tps'] == 0 or bp['tps'] > 10 ** 9:
+                    bp['tps'] = r.choice([1, 1000, 10 ** 6])
+                if bp['max'] > 10000:
+                    bp['max'] = r.choice(gen.MAX_CHOICES)
+            kw['preamble'] = pre
         cases.append(gen.gen_history(r, 'c%05d' % i, **kw))
     return cases
 
